@@ -12,6 +12,7 @@ META = {
             'bodies calling other functions, overflowing conversions, recursion, undefined functions) are validated boundary by boundary: every variable is compared after every statement.',
     'note': 'Trusted: TLC, hook H1, the program renderer. Numeric functions/parameters only (string parameters are exercised under memory pressure by C10); wrong argument counts are outside the fragment.',
 }
+META['text'] += " Interp.tla models DEFINT/DEFSNG (a name without type sign is resolved when it is used); a family changes the type of the parameter's name between DEF FN and the call (argument converting or overflowing, parameter variable existing or not), and random programs mix DEFINT/DEFSNG statements with bare parameter names."
 
 
 def run(ctx):
